@@ -327,6 +327,12 @@ func faultCases(w *world, thorough bool) ([]caseSpec, error) {
 			}
 		}
 	}
+	// delivery faults of the sync request: the (valid, garbage, failing) answer arrives AFTER the node's timeout
+	for _, schema := range []string{"update-ext", "update-full"} {
+		for _, v := range []string{"late", "late-garbage", "late-error"} {
+			res = append(res, caseSpec{Kind: "handler", Schema: schema, Mode: "whole", Pos: "delivery", Fault: "delivery", Variant: v})
+		}
+	}
 	// access node: query strings and faulted answers of the trusted validator
 	for _, q := range []string{"", "?address=", "?address=" + w.w0.Address, "?address=" + w.w0.Address + "&value=1000&consolidation=false",
 		"?address=" + w.w0.Address + "&value=-1&consolidation=true", "?address=" + w.w0.Address + "&value=99999999999999999999&consolidation=false",
